@@ -253,7 +253,7 @@ func (m *model) destination(rc *router.RouteConfig, q *request) tv {
 }
 
 // route evaluates one route: AND across kinds.
-func (m *model) route(rc *router.RouteConfig, q *request) tv {
+func (m *model) route(k int, rc *router.RouteConfig, q *request) tv {
 	var conds []tv
 	dead := false // a false condition was already seen: later ones cannot matter, do not count them as coverage
 	add := func(kind string, invert bool, held tv) {
@@ -270,19 +270,19 @@ func (m *model) route(rc *router.RouteConfig, q *request) tv {
 		m.note("network %s -> %c", rc.Network, conds[0].k)
 	}
 	if len(rc.FromServers) > 0 {
-		add("from-server", rc.InvertFromServers, fromBool(slices.Contains(rc.FromServers, m.w.Servers[q.Server])))
+		add("from-server of "+bucket(len(m.w.Servers))+" servers", rc.InvertFromServers, fromBool(slices.Contains(rc.FromServers, m.w.Servers[q.Server])))
 	}
 	if len(rc.FromUsers) > 0 {
 		add("from-user", rc.InvertFromUsers, fromBool(slices.Contains(rc.FromUsers, q.User)))
 	}
 	if len(rc.FromPorts) > 0 || rc.FromPortRanges != "" {
-		add("from-port", rc.InvertFromPorts, fromBool(portIn(rc.FromPorts, rc.FromPortRanges, q.Src.Port())))
+		add("from-port["+m.w.aux[k].From.Repr+"] "+portClass(q.Src.Port()), rc.InvertFromPorts, fromBool(portIn(rc.FromPorts, rc.FromPortRanges, q.Src.Port())))
 	}
 	if ps := m.prefixes(rc.FromPrefixes, rc.FromPrefixSets); len(ps) > 0 {
-		add("from-prefix", rc.InvertFromPrefixes, addrIn(ps, q.Src.Addr()))
+		add("from-prefix "+addrClass(q.Src.Addr()), rc.InvertFromPrefixes, addrIn(ps, q.Src.Addr()))
 	}
 	if len(rc.ToPorts) > 0 || rc.ToPortRanges != "" {
-		add("to-port", rc.InvertToPorts, fromBool(portIn(rc.ToPorts, rc.ToPortRanges, q.Port)))
+		add("to-port["+m.w.aux[k].To.Repr+"] "+portClass(q.Port), rc.InvertToPorts, fromBool(portIn(rc.ToPorts, rc.ToPortRanges, q.Port)))
 	}
 	for _, v := range conds {
 		if v.k == 'F' {
@@ -301,6 +301,25 @@ func (m *model) route(rc *router.RouteConfig, q *request) tv {
 	return dest
 }
 
+// portClass and addrClass only label coverage classes.
+func portClass(p uint16) string {
+	switch p {
+	case 0, 1, 65535:
+		return "port=" + strconv.Itoa(int(p))
+	}
+	return "port=other"
+}
+
+func addrClass(a netip.Addr) string {
+	switch {
+	case a.Is4In6():
+		return "ip4in6"
+	case a.Is4():
+		return "ip4"
+	}
+	return "ip6"
+}
+
 func (m *model) clientOf(name string, udp bool) string {
 	if name == "reject" {
 		return "rejected"
@@ -316,7 +335,7 @@ func (m *model) decide(q *request) expect {
 	for k := range m.w.Cfg.Routes {
 		rc := &m.w.Cfg.Routes[k]
 		via := "route " + strconv.Itoa(k) + " (" + rc.Name + ")"
-		switch v := m.route(rc, q); v.k {
+		switch v := m.route(k, rc, q); v.k {
 		case 'T':
 			return expect{Allowed: []string{m.clientOf(rc.Client, q.UDP)}, Via: via}
 		case 'A':
